@@ -86,14 +86,6 @@ def branchTags (c : Cfg B) (ops : List (Op B)) (orc : List Outcome) : List Strin
       go r.2.1 rest r.2.2.2 (t :: acc)
   go [] ops orc []
 
-structure Verdict where
-  agree : Bool
-  implProj : String
-  modelProj : String
-  viol : Option Viol
-  tags : List String
-  malformed : Bool := false
-
 def runMlw (prop : String) (f : List String) (obsS : String) : Verdict :=
   match f with
   | [_, capS, endS, orcS, opsS] =>
@@ -108,9 +100,9 @@ def runMlw (prop : String) (f : List String) (obsS : String) : Verdict :=
       let mp := project prop model
       let v := match ckLife c [] ops impl with
         | .ok _ => none
-        | .error e => some e
+        | .error e => some (e.prop, e.clause)
       ⟨ip == mp, ip, mp, v, branchTags c ops orc, false⟩
-  | _ => ⟨false, "", "", none, [], true⟩
+  | _ => badCase
 
 /-! ### the buffered spy sink (and the flush delegations of StatsdClient / QueuingMetricSink) -/
 
@@ -159,19 +151,19 @@ def runSpy (prop : String) (f : List String) (obsS : String) : Verdict :=
     let opsL := splitList opsS ","
     let model := joinWith ";" (runSpyModel c q opsL)
     -- predicates: only when every write is visible (unbounded receiver queue)
-    let v : Option Viol :=
+    let v : Option (String × String) :=
       if q.isSome then none else
       match parseObs obsS with
       | none => none
       | some impl =>
         match ckLife c [] (parseOps opsS) impl with
         | .ok _ => none
-        | .error e => some e
+        | .error e => some (e.prop, e.clause)
     let same := if prop == "C19" || prop == "C05" then
         -- results are not part of these projections
         (obsS.splitOn ";").map (fun o => (o.splitOn "/").getD 1 "") == (model.splitOn ";").map (fun o => (o.splitOn "/").getD 1 "")
       else obsS == model
     ⟨same, obsS, model, v, ["spy" ++ (if q.isSome then "-bounded" else "")], false⟩
-  | _ => ⟨false, "", "", none, [], true⟩
+  | _ => badCase
 
 end Drv.MlwE
